@@ -393,7 +393,14 @@ public:
          DataArray da = createDataArray(name, type, data_type, shape, compression);
 
          const NDSize offset(shape.size(), 0);
-         da.setData(data, offset);
+         try {
+             da.setData(data, offset);
+         } catch (...) {
+             // the data could not be written (e.g. its elements do not convert to data_type):
+             // the array just created must not stay behind
+             deleteDataArray(da);
+             throw;
+         }
 
          return da;
     }
